@@ -26,8 +26,10 @@ theorem langEq_o_zero : LangEq En.lang ['o'] w!"zero" :=
 theorem isLinking_o : En.lang.isLinking ['o'] = false := by decide
 theorem isLinking_zero : En.lang.isLinking w!"zero" = false := by decide
 
-/-- two tokens look the same to the scanner as far as their TEXT is concerned: both skipped or none, and
-the same "contains a letter / is a lone full stop" verdict -/
+/-- two tokens look the same to the scanner: both skipped or none, and the same "contains a letter / is a lone
+full stop" verdict.  A token is skipped when it is NOT hinted and its text is the lone `-` or all white space, so for
+two tokens with the same hint this is a condition on their texts; for a hinted token against an un-hinted one it says
+that the un-hinted one is not skipped (a hinted token never is: `isSkipped_of_nan`). -/
 def SameLook (cfg : ScanCfg) (a b : Tok) : Prop :=
   Scanner.isSkipped cfg a = Scanner.isSkipped cfg b ∧
   (a.text.all (fun c => !cfg.cc.isAlphabetic c) && cfg.cc.trim a.text != ['.']) =
@@ -35,8 +37,23 @@ def SameLook (cfg : ScanCfg) (a b : Tok) : Prop :=
 
 theorem SameLook.refl (cfg : ScanCfg) (a : Tok) : SameLook cfg a a := ⟨rfl, rfl⟩
 
-theorem SameLook.of_text (cfg : ScanCfg) {a b : Tok} (h : a.text = b.text) : SameLook cfg a b := by
-  unfold SameLook Scanner.isSkipped; rw [h]; exact ⟨rfl, rfl⟩
+theorem SameLook.of_text (cfg : ScanCfg) {a b : Tok} (h : a.text = b.text) (hn : a.nan = b.nan) :
+    SameLook cfg a b := by
+  unfold SameLook Scanner.isSkipped; rw [h, hn]; exact ⟨rfl, rfl⟩
+
+/-- a hinted token is never skipped -/
+theorem isSkipped_of_nan (cfg : ScanCfg) {a : Tok} (h : a.nan = true) : Scanner.isSkipped cfg a = false := by
+  unfold Scanner.isSkipped; rw [h]; rfl
+
+/-- a hinted token against an un-skipped token with the same text -/
+theorem SameLook.of_text_hinted (cfg : ScanCfg) {a b : Tok} (h : a.text = b.text) (ha : a.nan = true)
+    (hb : Scanner.isSkipped cfg b = false) : SameLook cfg a b := by
+  refine ⟨(isSkipped_of_nan cfg ha).trans hb.symm, ?_⟩
+  rw [h]
+
+/-- … and that is all `SameLook` says about skipping in that case -/
+theorem SameLook.unskipped_of_hinted (cfg : ScanCfg) {a b : Tok} (h : SameLook cfg a b) (ha : a.nan = true) :
+    Scanner.isSkipped cfg b = false := h.1.symm.trans (isSkipped_of_nan cfg ha)
 
 theorem breaks_of_sameLook (cfg : ScanCfg) {a b : Tok} (h : SameLook cfg a b)
     (hl : cfg.lang.isLinking a.lower = cfg.lang.isLinking b.lower) : breaks cfg a = breaks cfg b := by
@@ -207,9 +224,13 @@ theorem pushRejected_eq_pushNan (cfg : ScanCfg) (s : Scanner) (pos : Nat) (b : T
     | error f => rfl
     | ok s1 =>
       dsimp only
-      obtain ⟨e, he, _⟩ := hr s1.parser
+      obtain ⟨e, he, hne⟩ := hr s1.parser
       rw [he]
-      rfl
+      cases e with
+      | incomplete => exact absurd rfl hne
+      | overlap => rfl
+      | nan => rfl
+      | frozen => rfl
   · rw [if_neg hn, if_neg hn]
 
 theorem push_refused_eq_pushNan (cfg : ScanCfg) (s : Scanner) (pos : Nat) (b : Tok)
@@ -253,6 +274,10 @@ structure NanWord (cfg : ScanCfg) (a b : Tok) : Prop where
   nanB : b.nan = false
   refused : WordRefused cfg b
 
+/-- the hinted token is never skipped, so `skipped` says that the stand-in is not skipped either -/
+theorem NanWord.unskipped {cfg : ScanCfg} {a b : Tok} (h : NanWord cfg a b) : Scanner.isSkipped cfg b = false :=
+  h.skipped.symm.trans (isSkipped_of_nan cfg h.nanA)
+
 theorem push_nanWord (cfg : ScanCfg) {s s' : Scanner} (h : Sim s s') (pos : Nat) {a b : Tok}
     (hab : NanWord cfg a b) : SimRes (s.push cfg pos a) (s'.push cfg pos b) := by
   by_cases hsk : Scanner.isSkipped cfg b = true
@@ -288,13 +313,15 @@ theorem pushRejected_sim (cfg : ScanCfg) {s s' : Scanner} (hp : s.parser = s'.pa
         rw [q1, q2]
         split
         · exact ⟨rfl, by simp [q3], fun _ => rfl⟩
-        · refine ⟨?_, ?_, fun _ => rfl⟩
-          · show (Scanner.outside cfg _ tok).parser = (Scanner.outside cfg _ tok).parser
-            rw [outside_parser', outside_parser']
-          · show (Scanner.outside cfg _ tok).tracker = (Scanner.outside cfg _ tok).tracker
-            rw [outside_tracker, outside_tracker]
-            show (if breaks cfg tok = true then t.tracker.breaker else t.tracker) = _
-            rw [q3]
+        · split
+          · exact ⟨rfl, q3, fun _ => rfl⟩
+          · refine ⟨?_, ?_, fun _ => rfl⟩
+            · show (Scanner.outside cfg _ tok).parser = (Scanner.outside cfg _ tok).parser
+              rw [outside_parser', outside_parser']
+            · show (Scanner.outside cfg _ tok).tracker = (Scanner.outside cfg _ tok).tracker
+              rw [outside_tracker, outside_tracker]
+              show (if breaks cfg tok = true then t.tracker.breaker else t.tracker) = _
+              rw [q3]
   · rw [if_neg hn, if_neg hn]
     refine ⟨?_, ?_, fun _ => rfl⟩
     · show (s.outside cfg tok).parser = (s'.outside cfg tok).parser
